@@ -27,7 +27,8 @@ Ch alpha(unsigned i)
     switch (i) {
     case 0: return Ch('a');
     case 1: return sizeof(Ch) == 1 ? static_cast<Ch>(0xE9) : static_cast<Ch>(~Ch(0x16)); // top bit set: sign of compare for every character type
-    default: return Ch(0);
+    case 2: return Ch(0);
+    default: return sizeof(Ch) == 1 ? Ch('b') : static_cast<Ch>(Ch('a') + 0x100); // wide: equal to 'a' modulo 256 (table/narrowing shortcuts collide)
     }
 }
 std::string show(Str const& s)
@@ -177,10 +178,10 @@ void drive(Ctx& c, std::vector<std::size_t> const& poss, std::vector<std::size_t
         SEARCH("find_last_not_of(ch,pos)", pos, NPOS, e.find_last_not_of(ch, pos), s.find_last_not_of(ch, pos));
         SEARCH("find_last_not_of(ptr,pos)", pos, NPOS, e.find_last_not_of(c.nz, pos), s.find_last_not_of(c.nz, pos));
         for (std::size_t cnt = 0; cnt <= c.nlen; ++cnt) { // the standard requires [s, s+count) to be valid
-            SEARCH("find(ptr,pos,count)", pos, cnt, e.find(c.nz, pos, cnt), s.find(c.nz, pos, cnt));
-            SEARCH("rfind(ptr,pos,count)", pos, cnt, e.rfind(c.nz, pos, cnt), s.rfind(c.nz, pos, cnt));
-            SEARCH("find_first_of(ptr,pos,count)", pos, cnt, e.find_first_of(c.nz, pos, cnt), s.find_first_of(c.nz, pos, cnt));
-            SEARCH("find_last_of(ptr,pos,count)", pos, cnt, e.find_last_of(c.nz, pos, cnt), s.find_last_of(c.nz, pos, cnt));
+            SEARCH("find(ptr,pos,count)", pos, cnt, e.find(c.en.data(), pos, cnt), s.find(c.en.data(), pos, cnt));
+            SEARCH("rfind(ptr,pos,count)", pos, cnt, e.rfind(c.en.data(), pos, cnt), s.rfind(c.en.data(), pos, cnt));
+            SEARCH("find_first_of(ptr,pos,count)", pos, cnt, e.find_first_of(c.en.data(), pos, cnt), s.find_first_of(c.en.data(), pos, cnt));
+            SEARCH("find_last_of(ptr,pos,count)", pos, cnt, e.find_last_of(c.en.data(), pos, cnt), s.find_last_of(c.en.data(), pos, cnt));
             SEARCH("find_first_not_of(ptr,pos,count)", pos, cnt, e.find_first_not_of(c.nz, pos, cnt),
                 s.find_first_not_of(c.nz, pos, cnt));
             SEARCH("find_last_not_of(ptr,pos,count)", pos, cnt, e.find_last_not_of(c.nz, pos, cnt),
@@ -233,7 +234,7 @@ void drive(Ctx& c, std::vector<std::size_t> const& poss, std::vector<std::size_t
             SIGNOP("compare(pos1,count1,sv)", p1, c1, 0, NPOS, e.compare(p1, c1, c.en), s.compare(p1, c1, c.sn));
             SIGNOP("compare(pos1,count1,ptr)", p1, c1, 0, NPOS, e.compare(p1, c1, c.nz), s.compare(p1, c1, c.nz));
             for (std::size_t c2 = 0; c2 <= c.nlen; ++c2) {
-                SIGNOP("compare(pos1,count1,ptr,count2)", p1, c1, 0, c2, e.compare(p1, c1, c.nz, c2), s.compare(p1, c1, c.nz, c2));
+                SIGNOP("compare(pos1,count1,ptr,count2)", p1, c1, 0, c2, e.compare(p1, c1, c.en.data(), c2), s.compare(p1, c1, c.en.data(), c2));
             }
             for (std::size_t p2 = 0; p2 <= c.sn.size(); ++p2) {
                 for (std::size_t c2 : counts) {
@@ -369,7 +370,7 @@ void run_case(vf::Case& c)
         for (std::size_t k = 0; k <= n.size() + 1; ++k) { counts.push_back(k); }
         counts.push_back(NPOS);
     } else {
-        unsigned A   = 2 + (unsigned)c.rng.below(2);
+        unsigned A   = 2 + (unsigned)c.rng.below(3);
         std::size_t hl = (std::size_t)c.rng.below(41);
         for (std::size_t i = 0; i < hl; ++i) { h += alpha((unsigned)c.rng.below(A)); }
         if (hl > 0 && c.rng.chance(2, 3)) {
